@@ -45,6 +45,10 @@ def messages():
                              'DE7': 42, 'DE12': datetime.datetime(1999, 12, 31, 23, 59, 59),
                              'DE32': '123456789012', 'DE73': datetime.datetime(2024, 2, 29)}),
         'min': ('PKG', {'MTI': '1644'}),
+        'maxvar': ('PKG', {'MTI': '1240', 'DE2': '5' * 19, 'DE31': 'R' * 99, 'DE54': isogen.text(997, 1, isogen.alphabets('ascii')[0]),
+                           'DE55': iso_ref.icc_build(isogen.icc_of_length(999, 5)),
+                           'DE72': isogen.text(999, 2, isogen.alphabets('ascii')[0]),
+                           'DE111': isogen.text(998, 3, isogen.alphabets('ascii')[0]), 'DE127': 'N' * 3}),
         'zero_len': ('PKG', {'MTI': '1240', 'DE3': '123456'}),
         'gen': ('GEN3', None),
     }
